@@ -49,6 +49,10 @@ Definition wf_src (T : list text) (r : nat) (src : list (nat * nat)) : bool :=
   negb (match src with [] => true | _ => false end)
   && forallb (fun p => in_range T (mkfrag r (fst p) (snd p))) src.
 
+(* the inputs the property speaks about; the sides of a simple transposition are single text selections *)
+Definition wf_input (T : list text) (complex : bool) (V : list side) (r : nat) (src : list (nat * nat)) : bool :=
+  wf_transp T V && wf_src T r src && (complex || forallb (fun sd => Nat.eqb (length sd) 1) V).
+
 (* every codepoint of the source lies in a fragment (in resource r) of the side *)
 Definition covered (sd : side) (r : nat) (src : list (nat * nat)) : bool :=
   forallb (fun p =>
@@ -88,6 +92,12 @@ Fixpoint find_flag (i : nat) (O : list oside) : option nat :=
 
 Definition count_flags (O : list oside) : nat :=
   length (filter (fun o => negb (Nat.eqb (fst o) 0)) O).
+
+(* a result of the model as such an observation *)
+Definition flagged (res : result) : list oside :=
+  map (fun i => ((if Nat.eqb i (r_side res) then (if r_newsrc res then 2 else 1) else 0),
+                 nth i (r_sides res) []))
+      (seq 0 (length (r_sides res))).
 
 (* a target side: as many pieces as the source side; piece k is a selection of a resource the old
    side lies in and has the text of piece k of the source side *)
